@@ -61,7 +61,7 @@ def colorline(draw, npal):
 def fill(draw, npal):
     k = draw(st.sampled_from(["solid", "solid", "lin", "rad"]))
     if k == "solid":
-        return {"Format": 2, "PaletteIndex": draw(st.sampled_from([0, 1, 2, 0xFFFF])), "Alpha": draw(st.sampled_from([1.0, 1.0, 0.5]))}
+        return {"Format": 2, "PaletteIndex": draw(st.sampled_from([0, 1, 2, 3, 0xFFFF])), "Alpha": draw(st.sampled_from([1.0, 1.0, 0.5]))}  # 3 = black: SVG's initial fill
     if k == "lin":
         x0, y0 = draw(ints(0, 600)), draw(ints(0, 600))
         ang, ln = draw(fl(0, 6.28)), draw(ints(150, 500))
@@ -163,14 +163,14 @@ def font_case(draw):
         for i in range(nbase):
             nl = draw(ints(1, 4))
             paints["c%d" % i] = [(draw(st.sampled_from(outline_names)), draw(st.sampled_from([0, 1, 2, 0xFFFF]))) for _ in range(nl)]
-            advs["c%d" % i] = draw(st.sampled_from([1000, 600, 1400]))
+            advs["c%d" % i] = draw(st.sampled_from([1000, 600, 1400, 400]))
         unsupported = None
     else:
         unsupported = draw(st.sampled_from([None] * 28 + UNSUPPORTED))
         for i in range(nbase):
             depth = draw(st.sampled_from([1, 2, 3, 3, 4, 5, 6]))
             paints["c%d" % i] = draw(node(depth, npal, ["c%d" % j for j in range(i)], outline_names))
-            advs["c%d" % i] = draw(st.sampled_from([1000, 600, 1400]))
+            advs["c%d" % i] = draw(st.sampled_from([1000, 600, 1400, 400]))
         if unsupported:
             paints["c0"] = plant_unsupported(draw, unsupported)
         elif draw(st.sampled_from([False, False, True])):
@@ -180,7 +180,7 @@ def font_case(draw):
                 ref = {"Format": 1, "Layers": [{"Format": 10, "Glyph": draw(st.sampled_from(outline_names)), "Paint": draw(fill(npal))}, ref]}
             k = "c%d" % len(paints)
             paints[k] = ref
-            advs[k] = draw(st.sampled_from([1000, 600, 1400]))
+            advs[k] = draw(st.sampled_from([1000, 600, 1400, 400]))
     vbmode = draw(st.sampled_from(["region", "region", "square", "offset"]))
     comp_xf = [draw(fl(0.5, 1.2)), 0, 0, draw(fl(0.5, 1.2)), draw(ints(-100, 200)), draw(ints(-100, 200))]
     return {"version": version, "npal": npal, "paints": paints, "advs": advs, "vbmode": vbmode, "comp": comp_xf, "unsupported": unsupported,
@@ -205,7 +205,7 @@ def shared_pool_case(draw):
                 f = draw(wrap_transform(f))
             layers.append({"Format": 10, "Glyph": draw(st.sampled_from(outline_names)), "Paint": f})
         paints["c%d" % i] = layers[0] if len(layers) == 1 else {"Format": 1, "Layers": layers}
-        advs["c%d" % i] = draw(st.sampled_from([1000, 600, 1400]))
+        advs["c%d" % i] = draw(st.sampled_from([1000, 600, 1400, 400]))
     vbmode = draw(st.sampled_from(["region", "region", "square", "offset"]))
     return {"version": 1, "npal": npal, "paints": paints, "advs": advs, "vbmode": vbmode, "comp": [1, 0, 0, 1, 0, 0], "unsupported": None}
 
